@@ -74,7 +74,11 @@ package motion
 //@ func (fl *FrameLoop) CopyRecent
 //@   allocates
 //@   requires fl != nil && fl.inv()
-//@   ensures [C19] fresh(result)
+//@   requires forall i int :: 0 <= i && i < fl.size ==> cptvframe.rowsOf(fl.frames[i])
+//@   ensures [C19] fresh(result) && cptvframe.rowsOf(result)
+//@   call CreateCopy#1 assert previousIndex == (fl.currentIndex == 0 ? fl.size - 1 : fl.currentIndex - 1)
+//@   check [C19] result.copiedFrom == ref(fl.frames[previousIndex]) && len(result.Pix) == len(fl.frames[previousIndex].Pix) && result.Status == fl.frames[previousIndex].Status
+//@   check [C19] forall y int, x int :: 0 <= y && y < len(fl.frames[previousIndex].Pix) && 0 <= x && x < len(fl.frames[previousIndex].Pix[y]) ==> result.Pix[y][x] == fl.frames[previousIndex].Pix[y][x]
 //@   ensures [C19] fl.n() >= 1 ==> result.copiedFrom == ref(fl.frames[fl.slot(fl.n() - 1)])
 //@   ensures [C19] fl.n() >= 1 && fl.size >= 2 ==> fl.slot(fl.n() - 1) != fl.currentIndex
 
@@ -322,6 +326,7 @@ package motion
 //@ func (mp *MotionProcessor) GetRecentFrame
 //@   allocates
 //@   requires mp != nil && mp.wired() && mp.frameLoop.inv()
+//@   requires forall i int :: 0 <= i && i < mp.frameLoop.size ==> cptvframe.rowsOf(mp.frameLoop.frames[i])
 //@   ensures result0 == mp.CurrentFrame && fresh(result1)
 
 //@ func (mp *MotionProcessor) Process
